@@ -362,6 +362,53 @@ def r9_unconditional_structure_check(idx, r):
                       "default and gamma macroscopic data are built from neutron microscopic data")
 
 
+MUTATORS = ("extend", "append", "insert", "update", "add", "remove", "pop", "clear", "sort", "reverse", "setdefault")
+
+
+def r10_merge_builds_fresh(idx, r):
+    """A merge computes its result in a NEW object (`mergedData`) so that a conflict found later leaves the target untouched.  Binding an
+    attribute of the result to one of self's / other's own mutable containers and then changing it in place (`+=`, extend, update ...)
+    changes the source library before the checks have run."""
+    n = 0
+    for mname in (META, LIBS, XSC):
+        m = idx.modules.get(mname)
+        if m is None:
+            raise AnchorMissing(mname)
+        mutable_attrs = set()
+        for f in m.all_funcs():
+            if f.name == "__init__":
+                for s_ in iter_stores(f.node):
+                    if s_.chain and s_.chain.startswith("self.") and isinstance(s_.value, (ast.List, ast.Dict, ast.Set, ast.ListComp, ast.DictComp)) or \
+                            (s_.chain and s_.chain.startswith("self.") and isinstance(s_.value, ast.Call) and dotted(s_.value.func) in ("list", "dict", "set", "collections.OrderedDict", "OrderedDict")):
+                        mutable_attrs.add(s_.attr)
+        for f in m.all_funcs():
+            ps = set(f.params())
+            binds = [s_ for s_ in iter_stores(f.node) if s_.kind == "assign" and isinstance(s_.node, ast.Attribute) and isinstance(s_.value, ast.Attribute)
+                     and isinstance(s_.value.value, ast.Name) and s_.value.value.id in ps and s_.value.attr in mutable_attrs and norm(s_.node) != norm(s_.value)]
+            for b in binds:
+                n += 1
+                tgt = norm(b.node)
+                later = []
+                for nd in walk_local(f.node):
+                    if getattr(nd, "lineno", 0) <= b.stmt.lineno:
+                        continue
+                    if isinstance(nd, ast.AugAssign) and norm(nd.target) == tgt:
+                        later.append(nd)
+                    if isinstance(nd, ast.Call) and call_attr(nd) in MUTATORS and isinstance(nd.func, ast.Attribute) and norm(nd.func.value) == tgt:
+                        later.append(nd)
+                r.require(not later, f"{f.qualname}:{tgt}:no-in-place-change-of-a-borrowed-container", f, node=later[0] if later else b.stmt,
+                          msg=f"`{norm(b.stmt)}` makes `{tgt}` the very object `{norm(b.value)}`, and `{norm(later[0])[:60] if later else ''}` then changes it in place: the source's own "
+                              "container is modified before (and even if) the merge is rejected")
+    md = idx.method(META + ".FileMetadata", "_mergeLibrarySpecificData")
+    st_ = [s_ for s_ in iter_stores(md.node) if s_.attr == "fileNames"]
+    if not st_:
+        raise AnchorMissing("FileMetadata._mergeLibrarySpecificData: mergedData.fileNames")
+    v = st_[0].value
+    allv = " ".join(norm(x.value) for x in st_ if x.value is not None)
+    r.require("self.fileNames" in allv and f"{md.params()[1]}.fileNames" in allv and not any(isinstance(x.value, ast.Attribute) and x.kind == "assign" for x in st_),
+              "FileMetadata:fileNames-from-both-sources-in-a-new-list", md, node=st_[0].stmt, msg="the merged file-name list is a new list holding self's names and the other's")
+
+
 def run(idx, chk):
     chk.explanation = (
         "C10: metadata/collection merges never write into their inputs and raise on conflicts; direct stores into the target library happen only "
@@ -386,3 +433,5 @@ def run(idx, chk):
                  necessary="macroscopic sums are 'additive over nuclides' of ONE composition")
     chk.run_rule("R10.9", "group-structure assignments from the other library are unconditional; sibling branches pass the same keywords to createMacrosFromMicros", lambda r: r9_unconditional_structure_check(idx, r), floor=4,
                  necessary="'different group structures are rejected'; macroscopic data are the density-weighted sums of THE REQUESTED microscopic data")
+    chk.run_rule("R10.10", "a merge result never borrows a mutable container of its sources and then changes it in place", lambda r: r10_merge_builds_fresh(idx, r), floor=1,
+                 necessary="a rejected merge leaves the target library (metadata included) unchanged")
